@@ -291,6 +291,37 @@ def run(pid, tier, seed):
             if lines:
                 jobs.append((name + ":" + fv + ":extending", fbs, "\n".join(lines) + "\n", exp))
 
+        # messages with continuation lines that hold no digit at all (a stack trace's "Caused by: ..." line, longer than any
+        # timestamp), between dated lines of every length: each dated line is still read for itself
+        CONT = "Caused by: java.lang.IllegalStateException: the thing was not in the state the caller believed it to be in (see above)"
+        for name, zk, maxfd, render, fv in variants:
+            if fv == "frac":
+                continue
+            fbs, fbm = fallbacks[0]
+            lines, exp = [], []
+            for i, t0_ in enumerate(sts[:40]):
+                t = dict(t0_)
+                t["fd"] = 0 if fv == "nofrac" else min(t["fd"], maxfd)
+                t["n"] = int(("%09d" % t["n"])[:t["fd"]].ljust(9, "0")) if t["fd"] else 0
+                if zk == "epoch":
+                    if not ((1998, 7, 10) <= (t["y"], t["m"], t["d"]) <= (2065, 1, 23)):
+                        continue
+                    t["epoch"] = days_from_civil(t["y"], t["m"], t["d"]) * 86400 + t["H"] * 3600 + t["M"] * 60 + t["S"]
+                    t["n"] = (t["n"] // 10**6) * 10**6
+                if name in ("comma_ms", "bracket"):
+                    t["n"] = (t["n"] // 10**6) * 10**6
+                inst = instant(t, fbm, zk)
+                if not (0 < inst[0] < 47481):
+                    continue
+                ln = "%s x=%d" % (render(t), i) if i % 3 else render(t)
+                lines.append(ln)
+                exp.append(fmt_instant(*inst) + ":" + ln)
+                if i % 2 == 0:
+                    lines.append(CONT)
+                    exp.append(fmt_instant(*inst) + ":" + CONT)
+            if lines:
+                jobs.append((name + ":" + fv + ":continued", fbs, "\n".join(lines) + "\n", exp))
+
         def do(job):
             name, fbs, blob, exp = job
             d = os.path.join(sc, "n", "%s_%s" % (name.replace(":", "_"), fbs.replace(":", "c").replace("+", "p").replace("-", "m")))
